@@ -124,6 +124,10 @@ def run_case(rep, frs, raws, chunks, label, truncated=0):
     elif final_res != rest:
         rep.violation('C02/residual-wrong', 'carry-over buffer %r differs from unconsumed bytes %r' % (
             final_res[:16], rest[:16]), replay)
+    if conn.exceptions:
+        # the stream is a sequence of valid frames (possibly cut short): no fragmentation of it is an error
+        rep.violation('C02/error-on-valid-stream', 'a valid stream (%s) left %r in connection.exceptions' % (
+            label, [repr(e)[:70] for e in conn.exceptions][:2]), replay)
     # ---- model lines ----------------------------------------------------------------------------
     lines = ['c02.reset']
     expect = ['ok']
